@@ -26,7 +26,10 @@ type set interface {
 	All() []uint
 }
 
-type bitsS struct{ b setz.Bits }
+type bitsS struct {
+	b    setz.Bits
+	held func(func(uint) bool)
+}
 
 func (s *bitsS) Add(n uint) bool      { return s.b.Add(n) }
 func (s *bitsS) Remove(n uint) bool   { return s.b.Remove(n) }
@@ -57,7 +60,18 @@ func (s *bitsS) Range(k int) []uint {
 	s.b.Range(func(v uint) bool { out = append(out, v); return len(out) < k })
 	return out
 }
-func (s *bitsS) All() []uint { return allBits(&s.b) }
+func (s *bitsS) All() []uint {
+	if s.held == nil {
+		s.held = heldBits(&s.b)
+	}
+	if s.held == nil {
+		return allBits(&s.b)
+	}
+	s.held(func(uint) bool { return false })
+	out := []uint{}
+	s.held(func(v uint) bool { out = append(out, v); return len(out) < 1<<16 })
+	return out
+}
 
 type bitmapS struct{ b setz.Bitmap }
 
